@@ -674,6 +674,76 @@ def fixpoint_rule(ctx, rep, rid="FIX"):
 
 
 # ------------------------------------------------------------------------------------------------
+# L-FIXEXIT: the propagation passes run until nothing changes, not a fixed number of times
+# ------------------------------------------------------------------------------------------------
+FIXPOINT_DRIVERS = {
+    "OrderedChoiceValidator::calc_containment": "containment in an ordered choice is transitive through rule references of any depth",
+    "LL1Validator::calc_first": "first sets propagate through chains of rule references of any length",
+    "LL1Validator::calc_follow": "follow sets propagate through chains of rule references of any length",
+    "UsageValidator::run": "usage propagates from the start rule through references of any depth",
+    "RecoverySetGenerator::run": "dominator elimination needs as many rounds as the longest predecessor chain",
+}
+
+
+def fixpoint_exit_rule(ctx, rep, rid="FIXEXIT", only=None):
+    rep.rule(rid, "LOOP: each propagation pass of the semantic pass (containment in ordered choices, first, follow, usage, recovery/dominators) "
+                  "contains a loop around its per-declaration work that is left only through a change test - a boolean flag variable, a comparison of two "
+                  "table sizes (`len()` before and after the round) or an emptiness test of a work list - and never through a counter or an "
+                  "exhausted iterator alone: the facts propagate along reference chains of unbounded length, so a bounded number of rounds computes "
+                  "a result that depends on the order of the declarations and is incomplete for grammars whose chains run against that order")
+    lib = ctx.lelwel()
+    n = 0
+    for tail, why in sorted(FIXPOINT_DRIVERS.items()):
+        if only and tail not in only:
+            continue
+        bs = [b for b in user_bodies(lib) if b.name.startswith("frontend::sema::") and b.name.endswith("::" + tail) or b.name == "frontend::sema::" + tail]
+        if not bs:
+            raise MissingAnchor("frontend::sema::" + tail)
+        for b in bs:
+            pr = P(b)
+            good = []
+            for Lo in b.loops():
+                has_call = any(b.blocks[x]["t"]["t"] == "call" and not (b.blocks[x]["t"].get("sp") or {}).get("exp") for x in Lo["body"])
+                if not has_call:
+                    continue
+                exits = []
+                for blk in Lo["body"]:
+                    t = b.blocks[blk]["t"]
+                    outs = [s for s in b.succ(blk) if s not in Lo["body"] and b.blocks[s]["t"]["t"] not in ("unreachable", "resume", "abort", "terminate")]
+                    if not outs:
+                        continue
+                    if t["t"] == "switch":
+                        exits.append((blk, pr.operand(t["d"])))
+                    elif t["t"] in ("goto", "call", "drop", "assert"):
+                        exits.append((blk, None))
+                # unwinding/cleanup edges are not exits of interest: keep switches only when there is at least one
+                sw = [(blk, e) for blk, e in exits if e is not None]
+                if not sw:
+                    continue
+
+                def change_test(e):
+                    if e[0] == "local" and b.local_ty(e[1]) == "bool" and b.varname(e[1]):
+                        return True
+                    if e[0] == "un" and len(e) > 2:
+                        return change_test(e[2])
+                    if e[0] == "bin" and e[1] in ("Eq", "Ne", "Lt", "Gt", "Le", "Ge"):
+                        s2, s3 = show(e[2], 400), show(e[3], 400)
+                        return "::len(" in s2 and "::len(" in s3 or ("::len(" in s2 or "::len(" in s3) and any(x[0] == "local" and b.varname(x[1]) for x in list(walk(e[2])) + list(walk(e[3])))
+                    s = show(e, 400)
+                    return "::is_empty(" in s
+                if all(change_test(e) for _, e in sw):
+                    good.append(Lo)
+            n += 1
+            if good:
+                rep.ok(rid, "%s: iterates until a change test fails (%d such loop(s)); %s" % (tail, len(good), why))
+            else:
+                rep.violation(rid, "%s|no-change-tested-loop" % b.name, "%s has no loop that is left only through a change test (flag, size comparison, empty "
+                              "work list): the pass runs a bounded number of rounds although %s" % (b.name, why), "%s:%d" % (b.file, b.line))
+    rep.count("propagation passes examined", n)
+    rep.floor(rid, 1 if only else 5, "propagation passes")
+
+
+# ------------------------------------------------------------------------------------------------
 # L-TRAV: structural recursions over the regex tree visit every container variant
 # ------------------------------------------------------------------------------------------------
 CONTAINERS = ("OrderedChoice", "Alternation", "Concat", "Paren", "Optional", "Star", "Plus")
